@@ -312,7 +312,7 @@ def with_sanitizers(focus):
 
 # ---------------------------------------------------------------------- C02
 
-C02_FAMILIES = ["tails", "grid", "withlang", "tokens", "mutations", "bytes12", "chains"]
+C02_FAMILIES = ["tails", "grid", "withlang", "tokens", "mutations", "bytes12", "chains", "pairs"]
 C02_PHASES = ["parse", "display", "debug", "encode", "traverse", "clone-eq", "drop"]
 BOMB_FAMILIES = ["nest", "nest-noname", "nest-multi", "set-width", "coll-set", "attr-count", "group-count", "member-count",
                  "value-len", "name-len", "unterminated", "endcoll-flood", "member-flood", "addl-no-attr"]
@@ -505,7 +505,7 @@ def c02_replay(ctx, rp):
 C15_FAMILIES = ["nest", "nest-noname", "nest-multi", "set-width", "coll-set", "attr-count", "group-count", "member-count",
                 "value-len", "name-len", "unterminated", "endcoll-flood", "member-flood", "addl-no-attr",
                 "name-invalid-utf8", "value-invalid-utf8", "member-count-desc", "member-count-shuffled", "attr-count-desc", "wide-then-many",
-                "set-width-mixed", "member-width-mixed", "set-width-strings"]
+                "set-width-mixed", "member-width-mixed", "set-width-strings", "attr-same-name", "attr-few-names", "set-width-novalue", "member-same-name"]
 C15_RATIO_LIMIT = 2.6
 
 
@@ -766,14 +766,17 @@ def ensure_certs(ctx):
 
 
 def c12_build(ctx):
-    vnet_build(ctx, ["native", "rtls"])
+    vnet_build(ctx, ["native", "rtls", "mixna", "mixrn"])
 
 
 def c12_steps(ctx):
     d = ensure_certs(ctx)
     res = [vnet_run(ctx, v, "c12", extra=["--certs", d]) for v in ("native", "rtls")]
-    res[0]["coverage"]["rule"] = res[0]["coverage"]["rule"].replace("for the native-tls build", "per TLS backend build (native-tls and rustls, both run)")
-    res[0]["coverage"]["tls_backends_run"] = ["native-tls", "rustls"]
+    # mixed feature sets (each client on a different backend): sub-matrix in quick, full matrix in thorough
+    mixed_extra = ["--certs", d] + ([] if ctx["tier"] == "thorough" else ["--reduced"])
+    res += [vnet_run(ctx, v, "c12", extra=mixed_extra) for v in ("mixna", "mixrn")]
+    res[0]["coverage"]["rule"] = res[0]["coverage"]["rule"].replace("for the native-tls build", "per TLS backend build")
+    res[0]["coverage"]["tls_builds_run"] = ["native-tls (both clients)", "rustls (both clients)", "blocking native-tls + async rustls", "blocking rustls + async native-tls"]
     return res
 
 
